@@ -89,6 +89,7 @@ fn show_view(sm: &SourceMap, with_toks: bool) -> Result<String, String> {
                 )
             })
             .collect();
+        let toks = { let mut t = toks; let m = crate::util::order_marker(sm); if !m.is_empty() { t.push(m.to_string()); } t };
         s.push_str(&format!("T={} ", show_l(toks, ";")));
     }
     // sources through get_source(i) for every i below the count, cross-checked with the iterator
